@@ -292,7 +292,23 @@ func (c *ctx) faults(p pre, o Op, o2 *Op) {
 		faultDesc := fmt.Sprintf("fault at call %d (%s, %d bytes persisted)", pt.at, rec.Calls[rec.MutIdx[pt.at]].String(), pt.short)
 		replay := map[string]any{"pre": p.name, "op": o, "fault_at": pt.at, "short": pt.short}
 		if err == nil {
-			c.fail("fault-swallowed", p, []Op{o}, faultDesc+": the call reported success although a file-system step failed", replay)
+			// A swallowed failure matters when the step is part of writing, flushing or
+			// installing the new contents; ignoring an error from a read-only handle or
+			// from removing a leftover is harmless and not demanded by the property.
+			fc := rec.Calls[rec.MutIdx[pt.at]]
+			written := map[string]bool{}
+			for _, cc := range rec.Calls {
+				if cc.Op == "write" || cc.Op == "writeat" || cc.Op == "createtemp" || (cc.Op == "open" && cc.Mutating) {
+					written[cc.Path] = true
+				}
+			}
+			essential := fc.Op == "createtemp" || fc.Op == "write" || fc.Op == "writeat" || fc.Op == "chmod" || fc.Op == "sync" || fc.Op == "rename" || fc.Op == "truncate" || (fc.Op == "open" && fc.Mutating) || (fc.Op == "close" && written[fc.Path])
+			if fc.Op == "sync" && !written[fc.Path] {
+				essential = false
+			}
+			if essential {
+				c.fail("fault-swallowed", p, []Op{o}, faultDesc+": the call reported success although a step of writing or installing the new contents failed", replay)
+			}
 			continue
 		}
 		c.sec.Nontrivial++
